@@ -765,11 +765,34 @@ func (fr *frame) autoInvs(b *ssa.BasicBlock, phiVals map[*ssa.Phi]*Val) []*Term 
 	return out
 }
 
+// props: the properties that unlabelled obligations of this function belong
+// to: every property some clause of its contract serves (a failed invariant
+// invalidates all postconditions proved from it).
 func (fr *frame) props() []string {
-	if fr.fc != nil {
-		return fr.fc.Props
+	if fr.fc == nil {
+		return nil
 	}
-	return nil
+	return fr.fc.allProps()
+}
+
+func (fc *FuncContract) allProps() []string {
+	seen := map[string]bool{}
+	var out []string
+	add := func(ps []string) {
+		for _, p := range ps {
+			if !seen[p] {
+				seen[p] = true
+				out = append(out, p)
+			}
+		}
+	}
+	add(fc.Props)
+	for _, cs := range [][]*Clause{fc.Requires, fc.Ensures, fc.Invs, fc.Decs} {
+		for _, c := range cs {
+			add(c.Props)
+		}
+	}
+	return out
 }
 
 func clauseProps(c *Clause, def []string) []string {
